@@ -105,7 +105,13 @@ Proof. exact deflation_nonvacuous. Qed.
    the simple-root hypothesis; the largest-magnitude root is never double unless D = 0); the isotropic fallback (c2 >= -1e-30 c1^2)
    and the final argsort (ascending order is certified per instance by check_eig); that eig_compose and the one-piece segment kernel
    eig_deflate are the same Coq term (true by conversion -- `reflexivity` succeeds in 3 minutes, too slow for the build -- and checked
-   on every run by executing both at binary64, bit for bit); binary64 rounding of the stage. *)
+   on every run by executing both at binary64, bit for bit); binary64 rounding of the stage; anything about COMPILED BATCHES: since /repo
+   e63b801 the pair (fac1, fac2) is divided by facmax = where(max(|fac1|,|fac2|) > 0, max, 1) and both_zero is tested on the scaled pair --
+   over R a positive rescaling of evec0, covered at full strength by the theorems above (vectors_shape uses only facmax > 0) -- which
+   repairs the former finding EIGVMAP (eigenvectors not orthonormal inside jit(vmap) batches on (nearly) double eigenvalues) because XLA
+   evaluates a division once instead of re-evaluating the noise-valued pair per output component (fusion policy, not a JAX contract;
+   tools/vlib/eigvmap_fix_report.md).  No model of XLA exists here: batched accuracy is tied by the streams only (same tolerance as the
+   single call, near-degenerate spectra included; the EIGVMAP witness is replayed in batches of 2, 3 and 8 on every run). *)
 (* (c) the cancellation-free relative differences of the derivative rules are the divided differences (Daleckii-Krein) *)
 Theorem C12_sqrt_relative_difference : forall l1 l2, 0 < l1 -> 0 < l2 -> l1 <> l2 ->
   @_sqrt_relative_difference R NumR l1 l2 = (sqrt l1 - sqrt l2) / (l1 - l2).
